@@ -146,6 +146,11 @@ OPAQUE_METHODS = {
     ("Domain", "size"): ("int", lambda t: dom_size(t)),
 }
 
+pv_of_str = z3.Function("pv_of_str", Str, PyVal)          # a str as a generic Python value (injective)
+str_of_pv = z3.Function("str_of_pv", PyVal, Str)
+_s = z3.Const("s!pv", Str)
+PV_AXIOMS = [z3.ForAll([_s], str_of_pv(pv_of_str(_s)) == _s)]
+
 _lits: Dict[str, Any] = {}
 
 
@@ -157,7 +162,7 @@ def str_lit(s: str):
 
 def lit_axioms():
     vs = list(_lits.values())
-    return [z3.Distinct(*vs)] if len(vs) > 1 else []
+    return ([z3.Distinct(*vs)] if len(vs) > 1 else []) + PV_AXIOMS
 
 
 _ctr = [0]
